@@ -6,6 +6,7 @@ import copy
 import itertools
 import sys
 from .. import harness, monitors, games, analysis
+from ..oracle import P1, P2, PR
 from . import solver_common as sc
 
 PID = "C10"
@@ -33,12 +34,25 @@ def fig55():
             "final_states": [5]}
 
 
-def run_history(gd, history, limit):
+def exact_rewards(gd, desc, kind):
+    """The caller keeps exact numbers in the rewards list (the solver accepts any real number type)."""
+    from fractions import Fraction as F
+    from decimal import Decimal
+    if kind == "fraction":
+        desc["rewards"] = [F(r) for r in gd["rewards"]]
+    elif kind == "decimal":
+        # Decimal mixes with ints only: usable where every probability is the int 1 (deterministic games)
+        if all(isinstance(p, int) for s, tr in enumerate(desc["transition_list"]) if gd["players"][s] == PR for p, _ in tr):
+            desc["rewards"] = [Decimal(r.numerator) / Decimal(r.denominator) for r in gd["rewards"]]
+    return desc
+
+
+def run_history(gd, history, limit, rewards_kind=None):
     """Returns (problems, solves, removed_any)."""
     tad = monitors.mods()["tad"]
     MON = monitors.MON
     MON.drain("alias")
-    desc = games.to_solver(gd)
+    desc = exact_rewards(gd, games.to_solver(gd), rewards_kind)
     pristine = copy.deepcopy(desc)
     sg = None
     first = {}
@@ -74,7 +88,7 @@ def run_history(gd, history, limit):
         elif obs != first[prune][1]:
             problems.append({"step": k, "how": how, "prune": prune, "problem": "solve #%d differs from solve #%d with the same pruning flag" % (k, first[prune][0]),
                              "first": repr(first[prune][1])[:300], "now": repr(obs)[:300]})
-        if desc != pristine:
+        if desc != pristine or repr(desc) != repr(pristine):          # equal AND of the same kinds (a Fraction replaced by an equal float is a change)
             problems.append({"step": k, "how": how, "prune": prune, "problem": "the caller's description changed after this solve"})
             desc = copy.deepcopy(pristine)          # keep looking for further, independent problems
             sg = None
@@ -130,8 +144,10 @@ def decide(gd, idx, cls, tier, rng):
     res = {"idx": idx, "verdict": "held", "stats": {"histories": 0, "solves": 0, "exhaustive_len2_len3_games": int(exhaustive and idx % 10 == 0)},
            "tags": [cls], "key": games.canon_key(gd), "nontrivial": False}
     problems = []
+    kind = {1: "fraction", 3: "decimal"}.get(idx % 4) if cls != "FIG55" else None
+    res["stats"]["games_with_exact_rewards"] = int(kind is not None)
     for h in hs:
-        pr, k, removed = run_history(gd, h, limit)
+        pr, k, removed = run_history(gd, h, limit, kind)
         if pr is None:
             res["stats"]["budget_histories"] = res["stats"].get("budget_histories", 0) + 1
             if res["stats"]["budget_histories"] >= 2 and not res["stats"]["histories"]:
@@ -149,7 +165,7 @@ def decide(gd, idx, cls, tier, rng):
     if problems:
         p = problems[0]
         res.update(verdict="violated", what="%s in history %s" % (p["problems"][0]["problem"], p["history"]), witness=problems[:3],
-                   case={"game": games.enc_game(gd), "history": p["history"]})
+                   case={"game": games.enc_game(gd), "history": p["history"], "rewards_kind": kind})
     if idx % 100 == 0:
         res["sample"] = {"game": games.to_solver(gd), "history": [[p, hw] for p, hw in hs[0]]}
     return res
@@ -208,8 +224,72 @@ def decide_batch(idx, seed):
     return res
 
 
+XPROC_CLASSES = ["G-DUPL", "G-DUPL", "G-MIX", "G-TIE", "G-DIGIT", "G-LEX", "G-EMPTY", "G-DEAD"]
+XPROC_PER = 30
+
+
+def decide_xproc(idx, seed):
+    """'Solving the same description again through a fresh object' where the fresh object lives in ANOTHER interpreter process (what
+    running the command twice does): XPROC_PER games are solved in three processes started with different string-hash seeds (and
+    therefore different set / dict iteration orders and object addresses); everything they print must be the same text."""
+    import json
+    import os
+    import subprocess
+    from .. import bootstrap
+    pool = []
+    for j in range(XPROC_PER):
+        rng = games.case_rng(seed, PID, "XPROC", idx * XPROC_PER + j)
+        cls = XPROC_CLASSES[j % len(XPROC_CLASSES)]
+        for _ in range(20):
+            gd = games.gen_class(rng, cls)
+            if gd is None:
+                continue
+            an = analysis.Analysis(gd)
+            try:
+                if an.stopping and an.finals_absorbing and max(an.tmax) < 200:
+                    break
+            except Exception:
+                pass
+            gd = None
+        if gd is not None:
+            pool.append(gd)
+    res = {"idx": idx, "verdict": "held", "stats": {"xproc_pools": 1, "xproc_games": len(pool), "xproc_processes": 0}, "tags": ["XPROC"],
+           "key": "xproc%d" % idx, "nontrivial": True}
+    payload = json.dumps([games.enc_game(g) for g in pool])
+    outs = {}
+    for hs in ("0", "1", "4242"):
+        env = dict(os.environ, PYTHONPATH=bootstrap.VERIF, PYTHONHASHSEED=hs)
+        try:
+            p = subprocess.run([bootstrap.PYTHON, "-B", "-m", "vf.xproc_solve", "20"], input=payload, capture_output=True, text=True,
+                               env=env, timeout=900, cwd=bootstrap.VERIF)
+        except subprocess.TimeoutExpired:
+            res.update(verdict="inconclusive", what="solver process with PYTHONHASHSEED=%s did not finish" % hs)
+            return res
+        if p.returncode != 0:
+            res.update(verdict="violated", what="solving in a separate process (PYTHONHASHSEED=%s) failed: %s" % (hs, p.stderr[-300:]),
+                       case={"xproc": idx, "seed": seed})
+            return res
+        outs[hs] = json.loads(p.stdout)
+        res["stats"]["xproc_processes"] += 1
+    ref = outs["0"]
+    problems = []
+    for hs, got in outs.items():
+        for j, (a, b) in enumerate(zip(ref, got)):
+            for k in a:
+                if "TIMEOUT" in (a[k], b[k]):
+                    res["stats"]["xproc_timeouts"] = res["stats"].get("xproc_timeouts", 0) + 1
+                    continue
+                if a[k] != b[k]:
+                    problems.append({"game": games.to_solver(pool[j]), "what": k, "PYTHONHASHSEED=0": a[k][:400], "PYTHONHASHSEED=%s" % hs: b[k][:400],
+                                     "problem": "%s of the same description differs between two interpreter processes" % k})
+    if problems:
+        res.update(verdict="violated", what=problems[0]["problem"], witness=problems[:3], case={"xproc": idx, "seed": seed})
+    return res
+
+
 def plan(tier, seed):
-    return sc.plan_classes(tier, TABLE, per_q=25, per_t=100, mult_t=8) + harness.split("BATCH", 60 if tier == "quick" else 600, 10)
+    return sc.plan_classes(tier, TABLE, per_q=25, per_t=100, mult_t=8) + harness.split("BATCH", 60 if tier == "quick" else 600, 10) + \
+        harness.split("XPROC", 12 if tier == "quick" else 120, 1 if tier == "quick" else 4)
 
 
 def run_batch(batch):
@@ -218,6 +298,9 @@ def run_batch(batch):
         EMIT_START(idx)
         if batch["cls"] == "BATCH":
             yield decide_batch(idx, batch["seed"])
+            continue
+        if batch["cls"] == "XPROC":
+            yield decide_xproc(idx, batch["seed"])
             continue
         rng = games.case_rng(batch["seed"], PID, batch["cls"], idx)
         gd = fig55() if batch["cls"] == "FIG55" else games.gen_class(rng, batch["cls"])
@@ -231,9 +314,11 @@ def replay(case):
     monitors.install()
     if "batch" in case:
         return decide_batch(case["batch"], case.get("seed", 0))
+    if "xproc" in case:
+        return decide_xproc(case["xproc"], case.get("seed", 0))
     gd = games.dec_game(case["game"])
     an = analysis.Analysis(gd)
-    pr, k, removed = run_history(gd, [tuple(x) for x in case["history"]], sc.limit_for(an))
+    pr, k, removed = run_history(gd, [tuple(x) for x in case["history"]], sc.limit_for(an), case.get("rewards_kind"))
     if pr:
         return {"verdict": "violated", "what": pr[0]["problem"], "witness": pr[:3], "case": case}
     return {"verdict": "held"}
